@@ -236,9 +236,12 @@ class Gen(object):
                 out.append(Cand(s, w, shape="bytes-exact" if k == L else "bytes-shorter"))
         else:
             out.append(Cand(b"xy", None, bad=True, shape="bytes-for-non-char"))
-        src = ffi.new(array_decl(d), [pe.obj] * L)
-        self.keep.append(src)
-        out.append(Cand(src, [((), ("raw", bytes(ffi.buffer(src))))], shape="cdata-same-type"))
+        nbytes = ffi.sizeof(array_decl(d))
+        blk = ffi.new("char[]", nbytes)
+        src = ffi.cast("%s(*)[%d]" % (ctype_name(e), L), blk)[0]
+        store_leaves(ffi, src, array_decl(d), lst(L).writes)
+        self.keep.append(blk)
+        out.append(Cand(src, [((), ("raw", bytes(ffi.buffer(blk))))], shape="cdata-same-type"))
         if depth >= 1 and e[0] != "prim":
             for a in self.alts(e, depth - 1)[1:]:
                 if a.var is not None:
@@ -289,10 +292,12 @@ class Gen(object):
         out.append(Cand(5, None, bad=True, shape="int-for-aggregate"))
         # a cdata of the same type
         full = seq(len(ctor))
-        srcp = ffi.new(ctype_name(d) + " *", full.obj)
-        self.keep.append(srcp)
         fixed = ffi.sizeof(ctype_name(d))
-        out.append(Cand(srcp[0], [((), ("raw", bytes(ffi.buffer(srcp))[:fixed]))], shape="cdata-same-type"))
+        blk = ffi.new("char[]", max(fixed, needed_size(ffi, d, full.var)))
+        srcp = ffi.cast(ctype_name(d) + " *", blk)
+        store_leaves(ffi, srcp, ctype_name(d), full.writes)     # built without any initializer machinery
+        self.keep.append(blk)
+        out.append(Cand(srcp[0], [((), ("raw", bytes(ffi.buffer(blk))[:fixed]))], shape="cdata-same-type"))
         if depth >= 1:
             for pos, f in enumerate(fields):
                 fn = f[0]
@@ -354,11 +359,11 @@ def poison(ffi, nbytes):
 
 
 def store_leaves(ffi, root, toptype, writes):
-    buf = ffi.buffer(root)
+    base = ffi.cast("char *", root)
     for path, v in writes:
         if isinstance(v, tuple) and v and v[0] == "raw":
             off = ffi.offsetof(toptype, *path) if path else 0
-            buf[off:off + len(v[1])] = v[1]
+            ffi.buffer(base + off, len(v[1]))[:] = v[1]
             continue
         obj = root
         for step in path[:-1]:
@@ -427,10 +432,6 @@ def run_type(ffi, gen, rec, d, form, counts):
         fixed = None
         cands = gen.alts(top, 1)
 
-    roomy = None
-    if isvar:
-        fn, fd, _ = d[3][-1]
-        roomy = {fn: 16} if fd[0] == "arr" else {fn: {fd[3][-1][0]: 16}}
     # no initializer: all zero
     if form != "open":
         poison(ffi, fixed)
@@ -439,7 +440,7 @@ def run_type(ffi, gen, rec, d, form, counts):
         count("no_init")
         ncases += 1
         if img != bytes(fixed):
-            probs.append(({"kind": "not_zero_without_initializer", "form": form}, {"shape": "no-init", "image": img}))
+            probs.append(({"kind": "not_zero_without_initializer", "form": form}, {"shape": "no-init", "init": "<none>", "form": form, "image": img}))
 
     for c in cands:
         ncases += 1
@@ -470,19 +471,19 @@ def run_type(ffi, gen, rec, d, form, counts):
         rec.last = None
         r1b = attempt(lambda: rec.new(newtype, c.obj))
         # --- path 2: allocate (same flexible length), zero, assign
-        def path2():
-            if form == "ptr" and isvar and c.bad:
-                # a refused initializer may store a few leading items before it is refused:
-                # give the reference object room for the longest array any candidate holds
-                p = ffi.new(reftype, roomy)
-            elif form == "ptr":
-                p = ffi.new(reftype, c.var) if c.var is not None else ffi.new(reftype)
-            else:
-                p = ffi.new(reftype)
-            ffi.buffer(p)[:] = bytes(len(ffi.buffer(p)))
-            return p
-        p2 = path2()
-        size2 = len(ffi.buffer(p2))
+        G = 32
+        room = need + (256 if c.bad else 0)
+
+        def ref_object():
+            blk = ffi.new("char[]", room + 2 * G)
+            ffi.buffer(blk)[:] = b"\xee" * G + bytes(room) + b"\xee" * G
+            return blk, ffi.cast(reftype, blk + G)
+
+        def ref_image(blk):
+            raw = bytes(ffi.buffer(blk))
+            return raw[G:G + room], raw[:G] == b"\xee" * G and raw[G + room:] == b"\xee" * G
+        blk2, p2 = ref_object()
+
         def assign():
             if not (form == "open" and c.shape == "int-length"):    # 'p[0] = 3' is not an array initializer
                 p2[0] = c.obj
@@ -505,13 +506,16 @@ def run_type(ffi, gen, rec, d, form, counts):
             continue
         a = r1[1]
         img1 = bytes(ffi.buffer(a))
-        img2 = bytes(ffi.buffer(p2))
+        img2, intact2 = ref_image(blk2)
+        if not intact2:
+            probs.append(({"kind": "write_outside_object", "path": "assignment", "form": form, "var": isvar},
+                          dict(det, size=need)))
         # --- path 3: leaf stores into zeroed memory
-        p3 = path2()
+        blk3, p3 = ref_object()
         r3 = attempt(lambda: store_leaves(ffi, p3[0] if form != "ptr" else p3, toptype, c.writes))
-        if r3[0] != "ok":
-            raise InfraError("leaf stores failed for %s %r: %s" % (newtype, c.obj, r3[1]))
-        img3 = bytes(ffi.buffer(p3))
+        img3, intact3 = ref_image(blk3)
+        if r3[0] != "ok" or not intact3:
+            raise InfraError("leaf stores failed for %s %s: %s" % (newtype, det["init"], r3[1]))
         if form == "open" and len(a) != n:
             probs.append(({"kind": "open_array_length", "form": form}, dict(det, got=len(a), want=n)))
             continue
@@ -575,7 +579,7 @@ def work(block):
             k = "type_" + form + ("_flex" if has_var(d) else "") + "_" + spec[0]
             counts[k] = counts.get(k, 0) + 1
             for sig, det in probs:
-                det = dict(det, spec=spec)
+                det = dict(det, spec=spec, idx=idx)
                 bad.append((sig, det))
         gen.keep = []
     # keep the reply small
@@ -656,7 +660,7 @@ def replay(detail):
     spec = detail["spec"]
     spec = (spec[0], tuple(spec[1]), spec[2])
     ffi = cffi.FFI()
-    d, text = build_type(spec, "a0")
+    d, text = build_type(spec, "a%d" % detail.get("idx", 0))
     ffi.cdef(NAMED + text)
     print(text)
     gen = Gen(ffi)
